@@ -60,6 +60,14 @@ class C01(Prop):
     design_ref = "DESIGN.md §6 C01"
     # translator tie (DESIGN II.7): the closure observer behind `subscribe(|v| ..)` — one call per item, none per terminal
     tie_modules = {"RxModel.GenTie.SubscribeItem": [], "RxModel.GenTie.RcObserver": []}
+    # … and every operator machine the grammar theorems of C01 quantify over is tied to its generated counterpart: the ties
+    # of C03 (single-input operators, sources, derived layer) and of C04 (two-input operators) are obligations here too
+    try:
+        from .c03 import C03 as _C03
+        from .c04 import C04 as _C04
+        tie_modules = dict(tie_modules, **{k: v for k, v in _C03.tie_modules.items()}, **{k: v for k, v in _C04.tie_modules.items()})
+    except Exception:       # pragma: no cover
+        pass
     rule = ("random pipelines (depth<=5, <=3 hot subjects, cold sources incl. create with malformed scripts, "
             "all single-input variants, start_with, the 8 two-input combinators; local and _threads) x event "
             "scripts with post-terminal events and repeated terminals; plus every operator variant at depth 1 "
